@@ -511,6 +511,7 @@ def run(repo='/repo', tier='quick'):
     c07q(db, res)
     c07r(db, res)
     c07s(db, res)
+    c07t(db, res)
     return res
 
 
@@ -778,3 +779,55 @@ def c07s(db, res):
     res.check(bad is None and guard_seen, 'C07.s', 'htp_gzip_decompressor_probe:skip-count-within-data', 'a skip count beyond the data is answered with 0 on all %d paths' % n,
               'htp_gzip_decompressor_probe %s: when the gzip header is not complete inside the chunk (a file name cut by the chunk boundary) the caller skips bytes the probe never saw - the first chunk of the body is lost and the stream is neither decoded nor passed through' % ('returns a non-zero skip count on the path where the computed count exceeds the data' if bad and bad[0] == 'over' else 'returns a computed skip count that was never compared with the length of the data'), (bad[1] if bad else {}).get('loc', f.loc))
     res.floor('C07.s', 'return paths of the gzip header probe', n, 3)
+
+
+LIMITS = {'INT32_MAX': 2**31 - 1, 'UINT32_MAX': 2**32 - 1, 'INT_MAX': 2**31 - 1, 'UINT_MAX': 2**32 - 1, 'INT64_MAX': 2**63 - 1, 'SIZE_MAX': 2**64 - 1, 'UINT16_MAX': 65535, 'INT16_MAX': 32767}
+
+
+def c07t(db, res):
+    """The bomb limit and the time limit are kept as 32-bit signed numbers but set from a size_t. The setters clamp: the narrowing
+    store is reached only when the value is known to fit. A clamp against a larger constant lets a limit between 2 and 4 GiB
+    wrap to a negative number - and a negative bomb limit is exceeded by the first byte."""
+    res.rule('C07.t', 'configured limits are clamped before they are narrowed: in the configuration setters every store of a wider parameter into a narrower integer field is on an edge where the parameter is known to be at most the largest value of the field\'s type')
+    WIDTH = {'unsigned long': 64, 'long': 64, 'unsigned int': 32, 'int': 32, 'unsigned short': 16, 'short': 16}
+    n = 0
+    for name, f in sorted(db.fn.items()):
+        if not f.blocks or not name.startswith('htp_config_set_'):
+            continue
+        params = {p['name']: p['t'] for p in f.params}
+        for b, i, st in f.stmts():
+            for a in nodes(st, lambda y: y.get('k') == 'assign' and y['op'] == '=' and strip(y['l']).get('k') == 'member'):
+                r = strip(a['r'])
+                extra = []
+                if r is not None and r.get('k') == 'cond':
+                    # field = (p > K) ? K' : p  - the arm that stores the parameter is taken under the (negated) condition
+                    for arm, pol in ((r.get('a'), True), (r.get('b'), False)):
+                        av = strip(arm) if arm is not None else None
+                        if av is not None and av.get('k') == 'var' and av['name'] in params:
+                            at = P.canon(r.get('c') or r.get('cond') or {}, pol) if (r.get('c') or r.get('cond')) else None
+                            if at:
+                                extra.append(at)
+                            r = av
+                            break
+                if r is None or r.get('k') != 'var' or r['name'] not in params:
+                    continue
+                lt, rt = a.get('t'), r.get('t')
+                if lt not in WIDTH or rt not in WIDTH or WIDTH[rt] <= WIDTH[lt]:
+                    continue
+                if lt == 'unsigned char' or WIDTH[lt] < 32:
+                    continue
+                n += 1
+                top = 2 ** (WIDTH[lt] - (0 if lt.startswith('unsigned') else 1)) - 1
+                best = None
+                for (l, op, rr), e in list(P.facts_at(f, b)) + [(x_, None) for x_ in extra]:
+                    if l != r['name'] or op not in ('<=', '<'):
+                        continue
+                    try:
+                        kv = LIMITS[rr] if rr in LIMITS else int(rr, 0)
+                    except ValueError:
+                        continue
+                    kv = kv if op == '<=' else kv - 1
+                    best = kv if best is None else min(best, kv)
+                res.check(best is not None and best <= top, 'C07.t', '%s:%s' % (name, strip(a['l'])['field']), 'clamped to the range of the field',
+                          '%s stores its %s parameter `%s` into the %s field %s under the bound %s, which does not fit the field (largest value %d): a configured limit above that wraps to a negative number and is exceeded at once' % (name, rt, r['name'], lt, strip(a['l'])['field'], best, top), a['loc'])
+    res.floor('C07.t', 'narrowing stores in configuration setters', n, 2)
